@@ -9,6 +9,7 @@ import (
 
 	"github.com/superfly/litefs/verifharness/core"
 	"github.com/superfly/litefs/verifharness/dbreplay"
+	"github.com/superfly/litefs/verifharness/faults"
 )
 
 func main() {
@@ -103,5 +104,7 @@ func main() {
 	// crash points inside LiteFS-internal operations (spec/ApplyCrash.tla): replica apply of a streamed
 	// file / snapshot / drop, LiteFS's own checkpoint and recovery, DB.Drop, a crash during DB.Open itself
 	runApplyCrash(rep, args)
+	// failure paths (spec/Faults.tla): every call of the operation through the OS interface fails once
+	faults.Run(rep, args, faults.Select{Ops: []string{"rb_commit", "wal_commit", "import", "drop"}, Monitors: []string{"restart", "effect"}})
 	rep.Finish()
 }
